@@ -81,6 +81,13 @@ def case(draw, tier="quick"):
         for _ in range(draw(hperm.integers(1, 3))):
             i = draw(hperm.integers(0, len(spec["pos"]) - 1))
             spec["pos"][i][draw(hperm.integers(0, 2))] = draw(st.sampled_from([-123.456789, -1000.5, 12345.678901, -99.9999996, 100000.25]))
+    if draw(hperm.integers(0, 7)) == 0:
+        # an empty coefficient entry (what merging an unparameterised type leaves behind) in one of the tables
+        tabs = [t for t in ["pair_coeffs"] + [k + "_coeffs" for k in M.KINDS] if len(spec[t]) >= 2]
+        if tabs:
+            t = draw(st.sampled_from(tabs))
+            spec[t][draw(hperm.integers(0, len(spec[t]) - 1))] = ""
+            spec["_empty_entry"] = t
     norm = draw(st.booleans())
     if norm:
         spec["pair_coeffs"] = [normalise(c, "pair") for c in spec["pair_coeffs"]]
@@ -293,6 +300,8 @@ def oracle(c, stats):
     stats.count("cell:%s" % ("none" if cell is None else "tilted" if tilted else "ortho"))
     stats.count("normalised:%s" % c["normalised"])
     stats.count("call:" + form)
+    if spec.get("_empty_entry"):
+        stats.count("empty-coefficient-entry")
     if c.get("wide"):
         stats.count("coordinates-wider-than-the-column")
     stats.count("atoms:%s" % ("1-30" if len(spec["pos"]) <= 30 else "31-127" if len(spec["pos"]) <= 127 else "128-255" if len(spec["pos"]) <= 255 else "256+"))
